@@ -466,7 +466,7 @@ def check(run):
     for (level, k), ss in sorted(strip.items()):
         if k in CODE_KEYS:
             run.check(ss == {True}, r4, 'importer', "code field '%s' is stripped" % k, 'not stripped consistently', None)
-    rules_eq(run)
+    run.guard(rules_eq, run)
     from .c16 import rules_caches
-    rules_caches(run, 'C11', '.7')
+    run.guard(rules_caches, run, 'C11', '.7')
     run.note('C11.6 behaves identically after re-import: the importer registers children in reverse document order; harmless exactly when C07.1 holds (dependency)')
